@@ -143,7 +143,9 @@ def run(tier):
     stats = storage.campaign(chk, "C05", plans, TYPES, CTXS, bindir, judge, rnd)
     # two ACTIVE shards (spec/Storage2Gen.tla): rounds of either shard while the other holds data of its own; every round is
     # judged from both shards' views (the compacting shard's answers and the other shard's answers must both stay put)
-    sp = storage.campaign2(chk, "C05", [{"name": "c05p-cap2k2", "cap": 2, "k": 2, "gen_len": 11, "n_sim": 500, "n_rep": 8 if q else 120}],
+    sp = storage.campaign2(chk, "C05", [{"name": "c05p-cap2k2", "cap": 2, "k": 2, "gen_len": 11, "n_sim": 500, "n_rep": 6 if q else 120},
+                                        # lockstep: the same types, labels and input lists on both shards, a round of A followed by a round of B
+                                        {"name": "c05p-lock-cap2k2", "cap": 2, "k": 2, "gen_len": 12, "n_sim": 400, "n_rep": 5 if q else 80, "lock": True}],
                            CTXS, bindir, judge, random.Random(core.seed() + 55), with_replay=True,
                            keep_if=lambda b: sum(1 for c in b if c["cmd"] == "compact") >= 1)
     chk.cov["traces_validated_against_impl"] += sp["behaviours"]
